@@ -346,7 +346,7 @@ func (x *Exec) fillDecoded(st *State, ptr Val, body Term, root, path string, t t
 	for i := 0; i < stt.NumFields(); i++ {
 		f := stt.Field(i)
 		ft := f.Type()
-		if len(comps(ft)) == 0 {
+		if len(comps(ft)) == 0 || isProtoPlumbing(f) {
 			continue
 		}
 		fpath := path + "." + f.Name()
